@@ -245,6 +245,25 @@ def extra_oracles(rng, tier):
     def only_post(req):
         return "x"
 
+    @app.route("/ranged")
+    def ranged(req):
+        # a response whose handler has set Content-Length itself, answered under the request's Range header
+        from poorwsgi.response import GeneratorResponse
+        from poorwsgi.headers import parse_range
+        kind = req.environ["verif.kind"]
+        hdrs = {"Content-Length": "10", "ETag": '"r"'}
+        if kind == "buf":
+            res = Response(b"0123456789", headers=hdrs)
+        elif kind == "text":
+            res = TextResponse("0123456789", headers=hdrs)
+        else:
+            res = GeneratorResponse(iter([b"01234", b"", b"56789"]), headers=hdrs, content_length=10)
+        if "Range" in req.headers:
+            units = parse_range(req.headers["Range"])
+            if "bytes" in units:
+                res.make_partial(units["bytes"])
+        return res
+
     rets = {
         "str": lambda: "žluť" * 3, "bytes": lambda: b"\x00\x01", "none": lambda: None,
         "none201": lambda: (None, "", None, 201), "dict": lambda: {"a": "é"},
@@ -289,6 +308,31 @@ def extra_oracles(rng, tier):
                     bad = check_emission(case, calls, out, True)
                     if bad:
                         violations.append(Violation("c06-app:%s" % name, case, bad))
+    for kind in ("buf", "text", "gen"):
+        for rng_hdr in (None, "bytes=2-5", "bytes=0-0", "bytes=9-9", "bytes=-3", "bytes=4-", "bytes=0-99", "bytes=10-", "bytes=10-19",
+                        "bytes=500-", "bytes=-0", "bytes=7-3"):
+            for method in ("GET", "HEAD"):
+                env = {"REQUEST_METHOD": method, "PATH_INFO": "/ranged", "SERVER_NAME": "t", "SERVER_PORT": "80",
+                       "SERVER_PROTOCOL": "HTTP/1.1", "wsgi.url_scheme": "http", "wsgi.input": io.BytesIO(b""),
+                       "wsgi.errors": io.StringIO(), "verif.kind": kind}
+                if rng_hdr:
+                    env["HTTP_RANGE"] = rng_hdr
+                calls = []
+                case = {"path": "/ranged", "kind": kind, "Range": rng_hdr, "method": method,
+                        "handler": "sets Content-Length: 10 itself"}
+                n += 1
+                app.debug = False
+                try:
+                    out = b"".join(app(env, lambda s, h: calls.append((s, h))))
+                except Exception as err:
+                    statuses["escaped:" + type(err).__name__] = statuses.get("escaped:" + type(err).__name__, 0) + 1
+                    continue
+                if not calls:
+                    continue
+                statuses[calls[0][0][:3]] = statuses.get(calls[0][0][:3], 0) + 1
+                bad = check_emission(case, calls, out, True)
+                if bad:
+                    violations.append(Violation("c06-app:preset-length", case, bad))
     return violations, {"evaluations": n, "distinct_nontrivial": n, "app_statuses": statuses}
 
 
